@@ -94,3 +94,4 @@ import PyYetiVerif.Props.C01CplxUncFixed
 #print axioms PyYetiVerif.C01.complex_unc_rb_fixed_velo_exact
 #print axioms PyYetiVerif.C01.complex_unc_rb_fixed_undamped_unchanged
 #print axioms PyYetiVerif.C01.complex_unc_damped_rb_counterexample_fixed
+#print axioms PyYetiVerif.C01.complex_unc_rb_rows_fixed_spec
